@@ -1,18 +1,19 @@
-\* random deep plans with failing collection starts
+\* plans with starts of collections dropped upstream (OfferDropped): every history, counts 1..3 x 1..3, init + 4 steps
+\* (filtered to those with such a start)
 SPECIFICATION Spec
 CHECK_DEADLOCK FALSE
 INVARIANTS PlanOut
 CONSTANTS
-  MaxS = 4
-  MaxT = 4
+  MaxS = 3
+  MaxT = 3
   Pairs <- AllPairs
   Namings = {"distinct", "same"}
-  MaxOps = 16
+  MaxOps = 5
   HandoffChecksCapacity = FALSE
   ForwardCountedOnce = FALSE
   SourceKeyFromMapping = FALSE
-  WithFail = TRUE
+  WithFail = FALSE
   MaxFlight = 0
   OfferAtomic = TRUE
-  WithDropped = FALSE
+  WithDropped = TRUE
   DroppedChecksQuota = TRUE
